@@ -184,6 +184,25 @@ func (g *SG) stmt(c *sctx) []*ast.Node {
 		loop := ast.For(ast.Set(ast.Id(f), ast.Num("0")), cond, post, g.body(ic, false))
 		return []*ast.Node{loop}
 	case k <= 13: // for-in
+		if g.int(0, 6, "shrinkingforin") == 0 {
+			// the body removes elements of the array being iterated (directly or through a
+			// second name): every element the array had when the loop began is still visited
+			id := g.nextID()
+			q, v := fmt.Sprintf("q%d", id), fmt.Sprintf("v%d", id)
+			target := q
+			pre := []*ast.Node{ast.ExprS(ast.Set(ast.Id(q), ast.Arr(ast.Num("10"), ast.Num("20"), ast.Num("30"), ast.Num("40"), ast.Num("50"))))}
+			if g.bool("viaalias") {
+				target = q + "b"
+				pre = append(pre, ast.ExprS(ast.Set(ast.Id(target), ast.Id(q))))
+			}
+			ic := inner(c, "forin-arr", v)
+			body := g.body(ic, true)
+			m := rapid.SampledFrom([]string{"pop", "popfirst"}).Draw(g.T, "shrinkop")
+			body.C = append([]*ast.Node{ast.ExprS(ast.Set(ast.Id("shr"), ast.Method(ast.Id(target), m)))}, body.C...)
+			g.noteNest(c, "forin-arr")
+			g.Labels["forin-over-an-array-the-body-shrinks"] = true
+			return append(pre, ast.ForIn(v, "", ast.Id(q), body), ast.Print(ast.Str("Q"), ast.Id(q)))
+		}
 		return []*ast.Node{g.forIn(c)}
 	case k == 14 && c.loops > 0: // break / continue
 		kw := ast.Break()
